@@ -81,7 +81,8 @@ class ScanOb(Obligation):
         return res
 
 
-HIST = [('f64', ['1+2*@', '@^2', '1/@', '@', 'sin(@)+1', '2(3)!', '1/0', '1+', 'max(@,2)']), ('i64', ['1+2*@', '@%7', 'gcd(@,12)', '1/0', '(', 'min(@,3)', '@!', '21!', '22!', '20!', '5!']),
+STRESS = ['(x', '(<1)', '(99999999999999999999999)', '(', '1+', '((((', 'abs(', '1/0', '#', '(1', '1)', 'max(1,', '((1+2)*(3+4))']
+HIST = [('f64', ['1+2*@', '@^2', '1/@', '@', 'sin(@)+1', '2(3)!', '1/0', '1+', 'max(@,2)', '((((((((@))))))))']), ('i64', ['1+2*@', '@%7', 'gcd(@,12)', '1/0', '(', 'min(@,3)', '@!', '21!', '22!', '20!', '5!', '(2+3)*@', '((((((((@))))))))']),
         ('number', ['1+2*@', '@/2', 'round(@)', '1.5+@', '2^@']), ('decimal', ['1+2*@', '@/3', '0.1+0.2']), ('complex', ['@*i', 'i*i', 'sqrt(@)'])]
 PHS = {'f64': ['x4000000000000000', 'x4008000000000000', 'x7ff8000000000000', 'x0000000000000000', 'x8000000000000000'], 'i64': ['2', '3', '-7', '21', '30'], 'number': ['I2', 'I3', 'Fx4004000000000000'], 'decimal': ['d2', 'd3', 'd0.5'],
        'complex': ['cx4000000000000000,x0000000000000000', 'cx0000000000000000,x3ff0000000000000']}
@@ -104,6 +105,16 @@ def history_differential(ctx, profile):
                 got = r.request('EVAL', ev, b[1], native.esc(b[0]))[:2]
                 if got != fresh[b]:
                     out.append(dict(history='%s(%r,%s) then %s(%r,%s)' % (ev, a[0], a[1], ev, b[0], b[1]), second_in_history=' '.join(got), fresh=' '.join(fresh[b]), request=['EVAL', ev, b[1], native.esc(b[0])]))
+                    if len(out) > 5: r.close(); return out
+            r.close()
+        # state that only builds up over many calls (counters, caches that fill, guards that leak on an error path): repeat one call many times, then the corpus
+        for rep in [(f_, PHS[ev][0]) for f_ in STRESS] + calls[:3]:
+            r = native.Runner(binp)
+            for _ in range(300): r.request('EVAL', ev, rep[1], native.esc(rep[0]))
+            for b in calls:
+                got = r.request('EVAL', ev, b[1], native.esc(b[0]))[:2]
+                if got != fresh[b]:
+                    out.append(dict(history='300 x %s(%r,%s) then %s(%r,%s)' % (ev, rep[0], rep[1], ev, b[0], b[1]), second_in_history=' '.join(got), fresh=' '.join(fresh[b]), request=['EVAL', ev, b[1], native.esc(b[0])]))
                     if len(out) > 5: r.close(); return out
             r.close()
     return out
